@@ -421,6 +421,32 @@ def static_clauses(g, orig, res):
                 {"path_in_original": pa, "path_in_clone": pb, "type": tn}))
   if safe_str(orig) != text0 or (g is not None and safe_str(g) != gtext0):
     out.append(("clone-modifies-original", {}, text0, safe_str(orig)))
+  # equality must not depend on which of the two copies has been *read*
+  # (lazily parsed fields are decoded on first access)
+  def read_all(l):
+    for f in list(l.positional_fieldnames) + list(l.tagnames):
+      try:
+        l.get(f)
+      except Exception:
+        pass
+  for who in ("clone", "original"):
+    try:
+      c2 = orig.clone()
+      read_all(c2 if who == "clone" else orig)
+      res["transitions"] += 1
+      for a, b, lab in ((c2, orig, "clone==original"), (orig, c2, "original==clone")):
+        try:
+          eq = (a == b)
+        except Exception as e:
+          eq = purity.exc_canon(e)
+        if eq is not True:
+          what = eq[1] if isinstance(eq, list) else "False"
+          out.append(("clone-equal", {"what": what, "side": lab,
+                                      "after": "fields of the {} read".format(who)},
+                      True, eq))
+    except Exception as e:
+      out.append(("clone-raises", {"what": type(e).__name__}, "clone() returns a line",
+                  purity.exc_canon(e)))
   return c, out
 
 
